@@ -621,8 +621,43 @@ func TestBooksAgreeWithModel(t *testing.T) {
 					step("Audit")
 					audit("audit")
 				},
+				// single reads of one peer in one book (the audit always reads the addresses before the
+				// record, of every peer, in both books: a read that repairs state would hide what the
+				// other read, or the next GC run, sees)
+				"read1": func(rt *rapid.T) {
+					if cfg.capN > 0 {
+						rt.Skip("caps: audits only")
+					}
+					p := rapid.IntRange(0, nPeers-1).Draw(rt, "p")
+					what := rapid.SampledFrom([]string{"rec", "rec", "addrs"}).Draw(rt, "what")
+					which := rapid.SampledFrom([]string{"memory", "datastore", "datastore"}).Draw(rt, "which")
+					m.prune(time.Now())
+					step(fmt.Sprintf("Read1(%s,p%d,%s)", what, p, which))
+					var ab interface {
+						pstore.AddrBook
+						pstore.CertifiedAddrBook
+					} = b.mem
+					if which == "datastore" {
+						ab = b.dsb
+					}
+					if what == "addrs" {
+						if got, want := addrSet(ab.Addrs(pid(p))), m.live(p); strings.Join(got, ",") != strings.Join(want, ",") {
+							rt.Fatalf("%s book Addrs(peer%d) = %v, model %v\ntrace: %s", which, p, got, want, strings.Join(trace, "; "))
+						}
+						return
+					}
+					wantRec := ""
+					if m.peers[p].rec != nil {
+						wantRec = m.peers[p].rec.id
+					}
+					if got := recID(ab.GetPeerRecord(pid(p))); got != wantRec {
+						rt.Fatalf("%s book GetPeerRecord(peer%d) = %q, model %q\ntrace: %s", which, p, got, wantRec, strings.Join(trace, "; "))
+					}
+				},
 			})
-			audit("final audit")
+			if rapid.Bool().Draw(rt, "auditBeforeFinalGC") {
+				audit("final audit")
+			}
 			// final GC: after more than the GC period with nothing expiring in between,
 			// nothing without a live address may stay listed
 			step("FinalGC")
